@@ -20,6 +20,7 @@ def run(ctx):
         "InputSize = len(InputData) (as at every call site); byte-aligned messages",
     ]
     ctx.trusted += ["golang.org/x/crypto/sha3 as the external statement of Keccak-256 / SHA3-256"]
+    common.gates_tie(ctx)
     bits = [0, 8, 1072, 1080, 1088, 1096, 2168, 2176, 2184] + [8 * (68 + 32 * b) for b in (1, 2, 4)] + [8 * (64 + 4 * b) for b in (1, 2, 4)]
     if ctx.thorough:
         bits = sorted(set(bits + [8 * n for n in range(0, 411, 3)] + [8 * (68 + 3200), 8 * (64 + 400)]))
